@@ -549,6 +549,12 @@ func (in *inliner) stmt(s ast.Stmt, within *types.Func) ([]ast.Stmt, bool) {
 		if len(x.Rhs) == 1 {
 			if call := singleCall(x.Rhs[0]); call != nil {
 				if fd, f := in.inlinable(call, within); fd != nil {
+					if in.tailOnly[call] {
+						if repl, ok := in.expandMulti(x, call, fd, f); ok {
+							return repl, true
+						}
+						return []ast.Stmt{s}, false
+					}
 					if pre, res, ok := in.expand(call, fd, f, false); ok && len(res) == len(x.Lhs) {
 						cp := *x
 						cp.Rhs = res
@@ -1253,4 +1259,141 @@ func (in *inliner) explicitRecv(sel *ast.SelectorExpr, s *types.Selection) ast.E
 	}
 	in.recvCache[sel] = cur
 	return cur
+}
+
+// expandMulti expands `lhs… := h(args)` for a helper with several returns: `if c { …; return A }; rest` is `if c { …; return A }
+// else { rest }`, and once every return is in tail position (nothing of h runs after it) each is replaced by the assignment of
+// its results to lhs.
+func (in *inliner) expandMulti(as *ast.AssignStmt, call *ast.CallExpr, fd *ast.FuncDecl, f *types.Func) ([]ast.Stmt, bool) {
+	sig := f.Type().(*types.Signature)
+	if sig.Results().Len() != len(as.Lhs) {
+		return nil, false
+	}
+	var elseify func(list []ast.Stmt) []ast.Stmt
+	elseify = func(list []ast.Stmt) []ast.Stmt {
+		for i, s := range list {
+			ifs, isIf := s.(*ast.IfStmt)
+			if !isIf || ifs.Else != nil || len(ifs.Body.List) == 0 || i == len(list)-1 {
+				continue
+			}
+			if _, isR := ifs.Body.List[len(ifs.Body.List)-1].(*ast.ReturnStmt); isR {
+				cpIf := *ifs
+				cpIf.Else = &ast.BlockStmt{Lbrace: list[i+1].Pos(), List: elseify(list[i+1:]), Rbrace: list[len(list)-1].End()}
+				return append(append([]ast.Stmt{}, list[:i]...), &cpIf)
+			}
+		}
+		return list
+	}
+	bodyList := elseify(fd.Body.List)
+	tail := map[*ast.ReturnStmt]bool{}
+	var markTail func(list []ast.Stmt)
+	markTail = func(list []ast.Stmt) {
+		if len(list) == 0 {
+			return
+		}
+		switch x := list[len(list)-1].(type) {
+		case *ast.ReturnStmt:
+			tail[x] = true
+		case *ast.BlockStmt:
+			markTail(x.List)
+		case *ast.IfStmt:
+			markTail(x.Body.List)
+			switch e := x.Else.(type) {
+			case *ast.BlockStmt:
+				markTail(e.List)
+			case *ast.IfStmt:
+				markTail([]ast.Stmt{e})
+			}
+		case *ast.SwitchStmt:
+			hasDefault := false
+			for _, cl := range x.Body.List {
+				cc := cl.(*ast.CaseClause)
+				if cc.List == nil {
+					hasDefault = true
+				}
+				markTail(cc.Body)
+			}
+			_ = hasDefault
+		}
+	}
+	markTail(bodyList)
+	okTail, nret := true, 0
+	for _, s := range bodyList {
+		ast.Inspect(s, func(n ast.Node) bool {
+			if _, isLit := n.(*ast.FuncLit); isLit {
+				return false
+			}
+			if r, isR := n.(*ast.ReturnStmt); isR {
+				nret++
+				if !tail[r] || (len(r.Results) != len(as.Lhs) && !(len(r.Results) == 1 && singleCall(r.Results[0]) != nil)) {
+					okTail = false
+				}
+			}
+			return true
+		})
+	}
+	if !okTail || nret == 0 {
+		return nil, false
+	}
+	var pre []ast.Stmt
+	subst := map[types.Object]ast.Expr{}
+	inClosure := map[types.Object]bool{}
+	ast.Inspect(fd.Body, func(n ast.Node) bool {
+		if lit, isLit := n.(*ast.FuncLit); isLit {
+			ast.Inspect(lit.Body, func(m ast.Node) bool {
+				if id, isID := m.(*ast.Ident); isID {
+					if o := in.info.Uses[id]; o != nil {
+						inClosure[o] = true
+					}
+				}
+				return true
+			})
+			return false
+		}
+		return true
+	})
+	bind := func(p *types.Var, arg ast.Expr) {
+		if p.Name() == "_" || p.Name() == "" {
+			return
+		}
+		if in.simpleArg(arg) && !inClosure[p] {
+			subst[p] = arg
+			return
+		}
+		id := &ast.Ident{NamePos: call.Pos(), Name: p.Name()}
+		in.info.Defs[id] = p
+		pre = append(pre, &ast.AssignStmt{Lhs: []ast.Expr{id}, TokPos: call.Pos(), Tok: token.DEFINE, Rhs: []ast.Expr{arg}})
+	}
+	if r := sig.Recv(); r != nil {
+		sel := unparen(call.Fun).(*ast.SelectorExpr)
+		recv := ast.Expr(sel.X)
+		if s := in.info.Selections[sel]; s != nil && len(s.Index()) > 1 {
+			recv = in.explicitRecv(sel, s)
+			if recv == nil {
+				return nil, false
+			}
+		}
+		bind(r, recv)
+	}
+	for i, a := range call.Args {
+		bind(sig.Params().At(i), a)
+	}
+	cp := &copier{info: in.info, subst: subst}
+	lhsCopier := &copier{info: in.info, subst: map[types.Object]ast.Expr{}}
+	cp.onReturn = func(r *ast.ReturnStmt) ast.Stmt {
+		var res, lhs []ast.Expr
+		for _, e := range r.Results {
+			res = append(res, cp.node(e).(ast.Expr))
+		}
+		for _, l := range as.Lhs {
+			lhs = append(lhs, lhsCopier.node(l).(ast.Expr))
+		}
+		return &ast.AssignStmt{Lhs: lhs, TokPos: r.Pos(), Tok: as.Tok, Rhs: res}
+	}
+	out := pre
+	for _, s := range bodyList {
+		out = append(out, cp.node(s).(ast.Stmt))
+	}
+	in.count++
+	return out, true
 }
